@@ -63,6 +63,11 @@ func newEventFromUntrustedJSONV3(eventJSON []byte, roomVersion IRoomVersion) (PD
 		return nil, err
 	}
 
+	// The event ID of this format is computed, never read: "event_id" was stripped above, but the
+	// struct decoding also matches case variants of the key ("Event_id"), which must not be
+	// able to choose the event's ID.
+	res.EventIDRaw = ""
+
 	// v3 events have room IDs as the create event ID.
 	// TODO: allow validation to be enhanced/relaxed to help users like Complement.
 	if err := checkRoomID(res); err != nil {
@@ -94,6 +99,10 @@ func newEventFromUntrustedJSONV3(eventJSON []byte, roomVersion IRoomVersion) (PD
 			return nil, err
 		}
 
+		// (the redaction keep-list re-emits a case variant of event_id under its proper name)
+		if redactedJSON, err = sjson.DeleteBytes(redactedJSON, "event_id"); err != nil {
+			return nil, err
+		}
 		redactedJSON = CanonicalJSONAssumeValid(redactedJSON)
 
 		// We need to ensure that `result` is the redacted event.
